@@ -24,7 +24,9 @@
 // Output per case:
 //   case <id>
 //   L <time n/d> <B|D|A> <microtick> <0|1 read-only> p<pid> <what>    process actions, in execution order
-//   E <time> <c> <r|f> <RA> <RA2> <RB>     onClock callback of clock c (after the clocked nodes advanced)
+//       (after `susp H<m>` and `wake H<m>` a line `V <values of the watched signals>` follows)
+//   E <time> <c> <r|f> <RA> <RA2> <RB>     onClock callback of clock c (after the clocked nodes advanced; '-' for
+//                                          registers of the other clock domain)
 //   M <time> <B|D|A> <microtick>           onAfterMicroTick
 //   C <time> <RA> <RA2> <RB> <C>           onCommitState
 //   X <message>                            exception that ended the case (write in read-only mode)
@@ -110,7 +112,11 @@ struct Ctx : public sim::SimulatorCallbacks {
 	void onClock(const hlim::Clock *clock, bool risingEdge) override {
 		int c = -1;
 		for (size_t i = 0; i < clocks.size(); i++) if (clocks[i].getClk()->getClockPinSource() == clock) c = (int)i;
-		*out << "E " << ratStr(sim->getCurrentSimulationTime()) << " " << c << " " << (risingEdge ? 'r' : 'f') << " " << val(sigs[0]) << " " << val(sigs[1]) << " " << val(sigs[2]) << "\n";
+		// only the registers of this clock's own domain (keeps the line independent of the order in which
+		// two clockValueChange events of the same instant are served)
+		bool inA = c == 0, inB = c == (clocks.size() > 1 ? 1 : 0);
+		*out << "E " << ratStr(sim->getCurrentSimulationTime()) << " " << c << " " << (risingEdge ? 'r' : 'f') << " "
+			<< (inA ? val(sigs[0]) : "-") << " " << (inA ? val(sigs[1]) : "-") << " " << (inB ? val(sigs[2]) : "-") << "\n";
 	}
 	void onAfterMicroTick(size_t mt) override {
 		*out << "M " << ratStr(sim->getCurrentSimulationTime()) << " " << PH[(int)sim->getCurrentPhase()] << " " << mt << "\n";
@@ -139,9 +145,12 @@ static SimFunction<int> doStep(Ctx *cx, int pid, Step st)
 		case 'H': {
 			sim::SensitivityList sl;
 			for (int i = 0; i < 4; i++) if (st.a & (1 << i)) sl.add(cx->sigs[i]);
+			auto watched = [&]() { std::string r = "V"; for (int i = 0; i < 4; i++) if (st.a & (1 << i)) r += " " + cx->fmt(simu(cx->outs[i]).eval()); return r; };
 			cx->log(pid, "susp " + st.text);
+			cx->log(pid, watched());          // what the SignalWatch snapshots
 			co_await sim::WaitChange(sl);
 			cx->log(pid, "wake " + st.text);
+			cx->log(pid, watched());          // what the process sees when it is resumed
 		} break;
 		case 'S':
 			cx->log(pid, "susp S");
